@@ -172,6 +172,7 @@ def leave_dir(d: str):
 
 # --------------------------------------------------------------------------- models
 def make_model(kind='k2', pool=0, boot=0, model_name=None, params=None, table=None, **overrides):
+    # table: index into TABLES (None = the seed's table)
     """Returns (BIOGEME object, list of free parameter names in formula order, fixed names)."""
     _setup()
     import pandas as pd
@@ -182,7 +183,7 @@ def make_model(kind='k2', pool=0, boot=0, model_name=None, params=None, table=No
     from biogeme.parameters import Parameters
 
     names = NAME_POOLS[pool]
-    df = pd.DataFrame(table or TABLE)
+    df = pd.DataFrame(TABLE if table is None else TABLES[table])
     d = db.Database(DBNAME, df)
     x1, x2, x3, ch = Variable('x1'), Variable('x2'), Variable('x3'), Variable('ch')
     free, fixed = [], []
@@ -224,21 +225,21 @@ def estimate(b, boot=0, recycle=False):
     import numpy.random as npr
     saved = npr.randint
     if boot:
-        npr.randint = _Tape(NROWS)
+        npr.randint = _Tape(len(b.database.data))
     try:
         return b.estimate(run_bootstrap=bool(boot), recycle=recycle)
     finally:
         npr.randint = saved
 
 
-def pristine_results(kind, pool, boot):
+def pristine_results(kind, pool, boot, table=None):
     """A results object of a real estimation that produced no file; cached per worker, handed out as a deep copy."""
     import copy
     import biogeme.results as res
-    key = (kind, pool, boot)
+    key = (kind, pool, boot, table)
     cache = _STATE.setdefault('results', {})
     if key not in cache:
-        b, free, fixed = make_model(kind, pool, boot)
+        b, free, fixed = make_model(kind, pool, boot, table=table)
         r = estimate(b, boot)
         cache[key] = (r.data, free, fixed)
     raw, free, fixed = cache[key]
@@ -336,12 +337,12 @@ def compare_results(r1, r2, what, rec, case, keytail, expect_same_files=True):
             d = deep_diff(f(r1), f(r2), name)
         except Exception as e:
             d = f'{name}: raised {type(e).__name__}: {e}'
-        rec.case((what, keytail, name), (name, d), outcome=(name, d is None))
+        rec.case((what, keytail, case.get('pool'), case.get('table'), name), (name, d), outcome=(name, d is None))
         if d:
             fail('table:' + name, d)
     d1, d2 = dict(vars(r1.data)), dict(vars(r2.data))
     d = deep_diff(d1, d2, 'data')
-    rec.case((what, keytail, 'raw'), ('raw', d), outcome=('raw', d is None))
+    rec.case((what, keytail, case.get('pool'), case.get('table'), 'raw'), ('raw', d), outcome=('raw', d is None))
     if d:
         field = re.sub(r'[^A-Za-z_].*', '', d.split("'")[1]) if "'" in d else 'structure'
         fail('field:' + field, d)
@@ -351,7 +352,7 @@ def compare_results(r1, r2, what, rec, case, keytail, expect_same_files=True):
             d = None if t1 == t2 else _first_text_diff(t1, t2)
         except Exception as e:
             d = f'raised {type(e).__name__}: {e}'
-        rec.case((what, keytail, name), (name, d), outcome=(name, d is None))
+        rec.case((what, keytail, case.get('pool'), case.get('table'), name), (name, d), outcome=(name, d is None))
         if d:
             fail('report:' + name, d)
     return bad
@@ -370,10 +371,10 @@ def _part_i(task, rec):
     import biogeme.results as res
     kind, pool, boot = task['kind'], task['pool'], task['boot']
     keytail = f'kind={kind},boot={int(bool(boot))}'
-    case = dict(part='i', kind=kind, pool=pool, boot=boot)
+    case = dict(part='i', kind=kind, pool=pool, boot=boot, table=task.get('table'))
     d = fresh_dir('i')
     try:
-        r, free, fixed = pristine_results(kind, pool, boot)
+        r, free, fixed = pristine_results(kind, pool, boot, task.get('table'))
         rec.sample(dict(case, free=free, estimates={k: float(v) for k, v in r.get_beta_values().items()},
                         loglike=float(r.data.logLike)))
         before = set(os.listdir('.'))
@@ -388,15 +389,27 @@ def _part_i(task, rec):
             rec.violation(f'C14|pickle-name-not-fresh|{keytail}', f'write_pickle reported {fname!r}', case,
                           observed=fname)
         h1 = sha(open(fname, 'rb').read())
-        r2 = res.bioResults(pickle_file=fname, identification_threshold=r.identification_threshold)
+        try:
+            r2 = res.bioResults(pickle_file=fname, identification_threshold=r.identification_threshold)
+        except Exception as e:
+            rec.case(('i', kind, pool, boot, 'read'), ('read raised', type(e).__name__), outcome='read-raised')
+            rec.violation(f'C14|pickle-read-raises-{type(e).__name__}|{keytail}',
+                          f'bioResults(pickle_file={fname!r}) of a file just written raised {type(e).__name__}: {e}',
+                          case, observed=repr(e))
+            return
         compare_results(r, r2, 'pickle-roundtrip', rec, case, keytail)
         # second generation: the re-read object is written and read again
-        fname2 = r2.write_pickle()
-        if fname2 == fname or sha(open(fname, 'rb').read()) != h1:
-            rec.violation(f'C14|pickle-second-write-replaced-first|{keytail}',
-                          f'second write_pickle reported {fname2!r}; first file {fname!r} changed', case,
-                          observed=fname2)
-        r3 = res.bioResults(pickle_file=fname2, identification_threshold=r.identification_threshold)
+        try:
+            fname2 = r2.write_pickle()
+            if fname2 == fname or sha(open(fname, 'rb').read()) != h1:
+                rec.violation(f'C14|pickle-second-write-replaced-first|{keytail}',
+                              f'second write_pickle reported {fname2!r}; first file {fname!r} changed', case,
+                              observed=fname2)
+            r3 = res.bioResults(pickle_file=fname2, identification_threshold=r.identification_threshold)
+        except Exception as e:
+            rec.violation(f'C14|pickle-second-generation-raises-{type(e).__name__}|{keytail}',
+                          f'writing / reading the re-read object raised {type(e).__name__}: {e}', case, observed=repr(e))
+            return
         # file-name fields legitimately differ between generations
         r2.data.pickleFileName = r3.data.pickleFileName
         compare_results(r2, r3, 'pickle-roundtrip-2nd', rec, case, keytail)
@@ -405,11 +418,18 @@ def _part_i(task, rec):
     # estimate() with pickle generation, then a *fresh* BIOGEME recycles it
     d = fresh_dir('i')
     try:
-        b, free, fixed = make_model(kind, pool, boot, generate_pickle=True, generate_html=bool(pool % 2))
+        b, free, fixed = make_model(kind, pool, boot, table=task.get('table'), generate_pickle=True,
+                                    generate_html=bool(pool % 2))
         ra = estimate(b, boot)
-        b2, _, _ = make_model(kind, pool, boot, generate_pickle=True, generate_html=True)
+        b2, _, _ = make_model(kind, pool, boot, table=task.get('table'), generate_pickle=True, generate_html=True)
         listing = sorted(os.listdir('.'))
-        rb = estimate(b2, boot, recycle=True)
+        try:
+            rb = estimate(b2, boot, recycle=True)
+        except Exception as e:
+            rec.violation(f'C14|recycle-raises-{type(e).__name__}|{keytail}',
+                          f'estimate(recycle=True) in a directory holding {listing} raised {type(e).__name__}: {e}', case,
+                          observed=repr(e))
+            return
         if sorted(os.listdir('.')) != listing:
             rec.violation(f'C14|recycle-wrote-files|{keytail}',
                           f'estimate(recycle=True) changed the directory {listing} -> {sorted(os.listdir("."))}', case,
@@ -770,8 +790,8 @@ def _num_eq(cell, want) -> bool:
 
 def _part_iii(task, rec):
     kind, pool, boot = task['kind'], task['pool'], task['boot']
-    case = dict(part='iii', kind=kind, pool=pool, boot=boot)
-    r, free, fixed = pristine_results(kind, pool, boot)
+    case = dict(part='iii', kind=kind, pool=pool, boot=boot, table=task.get('table'))
+    r, free, fixed = pristine_results(kind, pool, boot, task.get('table'))
     K = len(free)
     keytail = f'pool={pool}' if pool >= 2 else 'plain-names'
     rec.sample(dict(case, free=free, fixed=fixed))
@@ -781,7 +801,7 @@ def _part_iii(task, rec):
                       f'{writer}: {clause} for model {kind} with parameters {free}: {detail}', case, observed=detail)
 
     def one(writer, ok, obs):
-        rec.case(('iii', kind, pool, boot, writer), (writer, obs), outcome=(writer, ok))
+        rec.case(('iii', kind, pool, boot, task.get('table'), writer), (writer, obs), outcome=(writer, ok))
 
     # the estimates themselves
     values = r.get_beta_values()
@@ -986,8 +1006,7 @@ def _part_n(task, rec):
 
 # --------------------------------------------------------------------------- part (iv): histories
 OPS_QUICK = ['pickle', 'html', 'latex', 'f12', 'dump', 'est_hp', 'est_p', 'recycle', 'toml', 'validate']
-OPS_THOROUGH = ['pickle', 'html', 'latex', 'f12', 'dump', 'est_hp', 'est_h', 'est_p', 'recycle', 'toml', 'validate',
-                'backup']
+OPS_THOROUGH = ['pickle', 'html', 'latex', 'f12', 'dump', 'est_hp', 'est_p', 'recycle', 'toml', 'validate', 'backup']
 ROOTS = ['empty', 'base', 'gap', 'blocked']
 HKIND = 'k2'
 HPOOL = 0
@@ -1257,7 +1276,10 @@ class History:
         for nm in created:
             if nm.endswith('.pickle') and (nm == f'{m}.pickle' or nm.startswith(f'{m}~')):
                 src = obj if obj is not None else self.r
-                back = res.bioResults(pickle_file=nm, identification_threshold=src.identification_threshold)
+                try:
+                    back = res.bioResults(pickle_file=nm, identification_threshold=src.identification_threshold)
+                except Exception as e:
+                    return ('history-pickle-unreadable', f'op={op}', f'{nm}: {type(e).__name__}: {e}')
                 d = deep_diff({k: v for k, v in vars(src.data).items()}, dict(vars(back.data)), 'data')
                 if d:
                     return ('history-pickle-differs', f'op={op}', f'{nm}: {d}')
@@ -1416,8 +1438,10 @@ def _result_specs(tier):
                     continue  # K = 1 with bootstrap: np.cov gives a 0-d array and bioResults raises (outside C14)
                 if tier == 'quick' and boot and not (pool in (0, 2) or kind == 'k3'):
                     continue
-                specs.append(dict(kind=kind, pool=pool, boot=boot))
-    specs.sort(key=lambda s: (s['boot'], KINDS.index(s['kind']), s['pool']))
+                for table in ([None] if tier == 'quick' else [None] + [i for i in range(len(TABLES))
+                                                                         if i != _SEED % len(TABLES)]):
+                    specs.append(dict(kind=kind, pool=pool, boot=boot, table=table))
+    specs.sort(key=lambda s: (s['table'] is not None, s['boot'], KINDS.index(s['kind']), s['pool'], s['table'] or 0))
     return specs
 
 
